@@ -155,7 +155,70 @@ def t_flip(src: str) -> str:
     return ast.unparse(ast.fix_missing_locations(_Flip().visit(ast.parse(src)))) + "\n"
 
 
-KINDS = {"unparse": t_unparse, "rename": t_rename, "flip": t_flip}
+class _Invert(ast.NodeTransformer):
+    """`if c: A else: B` -> `if not c: B else: A` (only plain if/else, no elif chains)"""
+
+    def visit_If(self, node):
+        self.generic_visit(node)
+        if node.orelse and not (len(node.orelse) == 1 and isinstance(node.orelse[0], ast.If)):
+            t = node.test
+            if isinstance(t, ast.UnaryOp) and isinstance(t.op, ast.Not):
+                nt = t.operand
+            else:
+                nt = ast.UnaryOp(op=ast.Not(), operand=t)
+            return ast.copy_location(ast.If(test=nt, body=node.orelse, orelse=node.body), node)
+        return node
+
+
+def t_invert(src: str) -> str:
+    return ast.unparse(ast.fix_missing_locations(_Invert().visit(ast.parse(src)))) + "\n"
+
+
+class _NotIs(ast.NodeTransformer):
+    """`x is not None` -> `not x is None`, `a not in b` -> `not a in b`, `a != b` -> `not a == b`"""
+
+    def visit_Compare(self, node):
+        self.generic_visit(node)
+        if len(node.ops) == 1 and isinstance(node.ops[0], (ast.IsNot, ast.NotIn, ast.NotEq)):
+            pos = {ast.IsNot: ast.Is, ast.NotIn: ast.In, ast.NotEq: ast.Eq}[type(node.ops[0])]()
+            return ast.copy_location(ast.UnaryOp(op=ast.Not(), operand=ast.Compare(
+                left=node.left, ops=[pos], comparators=node.comparators)), node)
+        return node
+
+
+def t_notis(src: str) -> str:
+    return ast.unparse(ast.fix_missing_locations(_NotIs().visit(ast.parse(src)))) + "\n"
+
+
+class _ElseIf(ast.NodeTransformer):
+    """`elif c:` -> `else: if c:` is the same AST in Python; instead: annotate plain assignments
+    of constants (`x = 0` -> `x: int = 0`) — a common typing clean-up"""
+
+    def visit_FunctionDef(self, node):
+        self.generic_visit(node)
+        seen = set()
+        new = []
+        for st in node.body:
+            if isinstance(st, ast.Assign) and len(st.targets) == 1 and isinstance(
+                    st.targets[0], ast.Name) and isinstance(st.value, ast.Constant) and type(
+                        st.value.value) in (int, str, bool) and st.targets[0].id not in seen:
+                seen.add(st.targets[0].id)
+                new.append(ast.copy_location(ast.AnnAssign(
+                    target=st.targets[0], annotation=ast.Name(
+                        id=type(st.value.value).__name__, ctx=ast.Load()),
+                    value=st.value, simple=1), st))
+            else:
+                new.append(st)
+        node.body = new
+        return node
+
+
+def t_annassign(src: str) -> str:
+    return ast.unparse(ast.fix_missing_locations(_ElseIf().visit(ast.parse(src)))) + "\n"
+
+
+KINDS = {"unparse": t_unparse, "rename": t_rename, "flip": t_flip, "invert": t_invert,
+         "notis": t_notis, "annassign": t_annassign}
 
 
 def run_kind(kind):
